@@ -80,12 +80,10 @@ func streamGvg(o *output, r *rand.Rand, n int) {
 		addGvg(o, in)
 	}
 	for i := 0; i < n; i++ {
-		k := 1 + r.Intn(12)
-		vs := genVersions(r, resolve.Maven, k)
-		if r.Intn(15) == 0 {
-			if len(vs) == 12 { // stay within 12 versions: slices.SortFunc is insertion sort only up to 12 elements
-				vs = vs[:11]
-			}
+		vs := genVersions(r, resolve.Maven, genCount(r))
+		if r.Intn(15) == 0 && len(vs) < 12 {
+			// an unparsable entry makes cmpFunc inconsistent (nil against nil is -1): only with insertion
+			// sort, i.e. up to 12 elements, is the result then determined
 			vs = append(vs, "99999999999999999999")
 		}
 		switch r.Intn(3) {
@@ -260,10 +258,14 @@ func buildOcase(o *output, stream string, u *universe, cl resolve.Client, vm loc
 	}
 	// packages that are ever vulnerable: their version lists, ranks, differences, affected bits
 	pkgSet := map[string]bool{}
+	nodeVers := map[string][]string{} // resolved versions per package (they need not be listed)
 	for _, st := range states {
 		for _, rv := range st.Vulns {
 			for _, n := range rv.Nodes {
 				pkgSet[n.Pkg] = true
+				if !slices.Contains(nodeVers[n.Pkg], n.Ver) {
+					nodeVers[n.Pkg] = append(nodeVers[n.Pkg], n.Ver)
+				}
 			}
 		}
 	}
@@ -283,10 +285,16 @@ func buildOcase(o *output, stream string, u *universe, cl resolve.Client, vm loc
 			vl = append(vl, vers.n(vk.Version))
 		}
 		versTbl = append(versTbl, fmt.Sprintf("(%s, %s)", names.n(p), cf.List(vl)))
-		allStrs = append(allStrs, vs...)
-		ri := ranksOf(sys, vs)
+		from := append([]string{}, vs...)
+		for _, nv := range nodeVers[p] {
+			if !slices.Contains(from, nv) {
+				from = append(from, nv)
+			}
+		}
+		allStrs = append(allStrs, from...)
+		ri := ranksOf(sys, from)
 		consistent = consistent && ri.consistent
-		for _, a := range vs {
+		for _, a := range from {
 			for _, b := range vs {
 				_, d, _ := sys.Difference(a, b)
 				difTbl = append(difTbl, fmt.Sprintf("(%s, %s, %s)", vers.n(a), vers.n(b), diffCoq(d)))
@@ -400,6 +408,20 @@ func streamFixMaven(o *output, r *rand.Rand, n int) {
 		}
 		u := genUniverse(r, resolve.Maven)
 		m := genManifest(r, u)
+		if i%6 == 1 {
+			// the registry serves the pinned version of a direct dependency without listing it
+			for _, d := range m.Deps {
+				if p := u.pkg(d.Name); p != nil && !d.Mgmt && len(p.Versions) >= 3 {
+					for k := range p.Versions {
+						if p.Versions[k].V == d.Req {
+							p.Versions[k].Unlisted = true
+							count("unlisted_resolved_version", "yes")
+						}
+					}
+					break
+				}
+			}
+		}
 		vs := genTargetedVulns(r, u, m)
 		cfg := genConfig(r, u)
 		runFixMaven(o, u, m, vs, cfg, "")
